@@ -139,6 +139,14 @@ DevRedisDoubleTake(c, i) ==
     /\ deliv' = [deliv EXCEPT ![i] = TRUE]
     /\ UNCHANGED <<now, st, loc, meta, ret, cons, norder, transit, pend>>
 
+(* ... or that the other consumer has meanwhile given back or re-queued: the second taker hands its stale copy to its client   *)
+(* while the message is waiting again                                                                                            *)
+DevRedisDoubleTakeStale(c, i) ==
+    /\ Dev("redis_double_take") /\ "holder" \in chk
+    /\ Live(i) /\ holder[i] = NoC /\ loc[i] \in {U("n"), U("d"), U("x")}
+    /\ deliv' = [deliv EXCEPT ![i] = TRUE]
+    /\ UNCHANGED <<now, st, loc, meta, holder, origin, ret, cons, norder, transit, pend>>
+
 (* ... and when the first taker has already dead-lettered (expired) or returned it, the second     *)
 (* taker's MULTI re-adds the name to `processing` / pushes it again: a second copy appears          *)
 DevRedisDoubleTakeGhost(c, i, new) ==
@@ -329,9 +337,11 @@ TEnd ==
                  IF Ev.st = "ok"
                  THEN /\ \/ Deliver(cl.c, Ev.i, chk) /\ taint' = taint
                          \/ DevRedisDoubleTake(cl.c, Ev.i) /\ taint' = taint \cup {Ev.i}
+                         \/ DevRedisDoubleTakeStale(cl.c, Ev.i) /\ taint' = taint \cup {Ev.i}
                          \/ DevRedisPrefetchExpiry(cl.c, Ev.i) /\ taint' = taint
                          \/ Ev.i \in taint /\ Deliver(cl.c, Ev.i, {}) /\ taint' = taint
-                      /\ (("content" \in chk /\ Ev.i \notin taint) => meta[Ev.i].ver = Ev.ver)  \* C07: what was enqueued is what arrives
+                      \* C07: what was enqueued is what arrives (a delivery that a listed deviation explains -- the stale copy of a double take -- is not judged)
+                      /\ (("content" \in chk /\ Ev.i \notin taint') => meta[Ev.i].ver = Ev.ver)
                       /\ Done(k)
                  ELSE UNCHANGED vars /\ Done(k) /\ taint' = taint
             [] cl.op = "enqueue" ->
